@@ -240,6 +240,18 @@ def fam_C02(tier, seed):
             b.require(a, worker=w1)
             b.require(a, worker=w2)
         ps.append(b.done())
+    # an OPTIONAL task with a work amount: when it is scheduled it has to reach it, when it is not it needs nothing
+    for work, (k1, kw1), sel in itertools.product((1, 3), [("V", dict(min=0, max=4)), ("F", dict(dur=2))], (False, True)):
+        b = PB(4, tag="work-optional")
+        a = b.task("A", k1, work=work, optional=True, **kw1)
+        c = b.task("B", "F", dur=1)
+        w1, w2 = b.worker("W1", prod=1), b.worker("W2", prod=2)
+        if sel:
+            b.require(a, select=b.select("S", [w1, w2], n=1, kind="min"))
+        else:
+            b.require(a, worker=w1)
+        b.require(c, worker=w1)
+        ps.append(b.done())
     # two tasks with work amounts (each task's own workers must reach its own amount)
     for (wa, wb), (pa, pb) in itertools.product([(2, 1), (3, 3), (1, 4)], [(1, 1), (2, 1)]):
         b = PB(4, tag="work-two-tasks")
